@@ -59,6 +59,7 @@ def build(src):
         Rule("D7.string-eq-dd", r"\barg_\s*==\s*\"--\"", "(arg_.id == OSTR_ID_DD)"),
         Rule("D7.string-size", r"\b(name_|arg_)\.size\(\)", r"\1.len"),
         Rule("D7.optional-bool", r"static_cast<bool>\(value_\)", "self->value_has"),
+        Rule("D7.optional-bool", r"(?<=[(!\s])value_(?=\s*(?:\?|\)|&&|\|\|))", "self->value_has"),      # optional contextually converted to bool
         Rule("D7.optional-deref", r"\*value_\b", "value_"),
         Rule("D6.starts-with-no", r"nitro::lang::starts_with\(name_,\s*\"--no-\"\)", "ostr_starts_with_no(&name_)"),
         Rule("D6.member-call", r"(?<![\w.>])(is_value|is_double_dash|is_short|is_named|is_argument|has_value|has_prefix)\(\)", r"ui_\1(self)"),
@@ -123,9 +124,12 @@ def build(src):
             rules=[Rule("D3.multiset-local", r"__auto_type list = arg\.as_short_list\(\);", "struct omset list; ui_as_short_list(&list, arg); NITRO_PROPAGATE;"),
                    Rule("D7.multiset-size", r"\blist\.size\(\)", "list.total"),
                    Rule("D7.multiset-count", r"\blist\.count\(base_short_name\(self\)\)", "omset_count(&list, base_short_name(self))"),
+                   Rule("D3.multiset-temporary", r"\barg\.as_short_list\(\)\.count\(base_short_name\(self\)\)", "toggle_short_count(arg, base_short_name(self))"),
+                   Rule("D3.multiset-temporary", r"\barg\.as_short_list\(\)\.size\(\)", "ui_short_total(arg)"),
+                   Rule("D7.string-size", r"\barg\.(name|value|data)\(\)\.size\(\)", r"ui_\1(arg)->len"),
                    Rule("D6.named-eq", r"\barg\.as_named\(\)\s*==\s*base_name\(self\)", "ostr_eq_v(ui_as_named(arg), *base_name(self))")] ,
             pre=[Rule("D2.auto", r"\bauto\b", "__auto_type")] + arg_calls + base_calls,
-            must_fire=["D3.multiset-local", "D7.multiset-count", "D6.named-eq"]))
+            must_fire=["D3.multiset-local|D3.multiset-temporary", "D7.multiset-count|D3.multiset-temporary", "D6.named-eq"]))
     # toggle
     st = "struct otoggle *self"
     cst = "const struct otoggle *self"
@@ -462,4 +466,22 @@ def build(src):
 }
 """ % (fn, fn)))
     u.trusted += ["std::map<std::string, T> is modelled for ONE key, the name being declared (omapk: contains it or not, the mapped object, the number of entries): count/emplace/iteration+emplace as the standard says"]
+    # ------------------------------------------------------------------ layer 5: usage text (C15)
+    TERM = "include/nitro/io/terminal.hpp"
+    u.add(F("format_padded", TERM, r"inline std::ostream& format_padded\(std::ostream& s, const std::string& in, int left_pad = 0,\s*int max_width = 80\)",
+            "struct ostream_m *format_padded(struct ostream_m *s, const struct ostr *in, int left_pad, int max_width)", ["C15"], dflt="0",
+            rules=[Rule("D7.stream-tellp", r"(?:auto|__auto_type) initial_indent = s\.tellp\(\);", "long initial_indent = os_tellp(s);"),
+                   Rule("D7.stream-setw", r"\bs << std::setw\(left_pad - initial_indent\);", "os_setw(s, (int)(left_pad - initial_indent));"),
+                   Rule("D10.range-for-temporary", r"for \((?:auto|__auto_type) word : nitro::lang::split\(in, \" \"\)\)\s*\{",
+                        "struct owords nitro_words; lang_split_blank(&nitro_words, in);\n            for (size_t i_ = 0; i_ < nitro_words.n; ++i_)\n            { struct ostr word = owords_at(&nitro_words, i_);"),
+                   Rule("D6.replace-tabs", r"nitro::lang::replace_all\(word, \"\\t\", \" \"\);", "oword_tabs_to_blanks(&word);"),
+                   Rule("D7.string-size", r"\bword\.size\(\)", "word.len"),
+                   Rule("D2.static-cast", r"static_cast<(?:std::)?size_t>\(", "nitro_int_to_size("), Rule("D2.static-cast", r"static_cast<int>\(", "(int)("),
+                   Rule("D7.stream-put", r"\bs << ' ' << word;", "os_put_char(s); os_put_word(s, &word);"),
+                   Rule("D7.stream-put", r"\bs << std::endl << std::setw\(left_pad\) << ' ' << word;", "os_endl(s); os_setw(s, left_pad); os_put_char(s); os_put_word(s, &word);"),
+                   Rule("D7.stream-setw", r"\bs << std::setw\(0\);", "os_setw(s, 0);")],
+            must_fire=["D7.stream-tellp", "D7.stream-setw", "D10.range-for-temporary", "D6.replace-tabs", "D7.stream-put"]))
+    u.stubs += ["lang_split_blank", "owords_at"]
+    u.trusted += ["std::ostream is modelled by its formatting state (width), its column and a monitor of the property (ostream_m): operator<<(char), operator<<(string), setw, endl, tellp as the standard says; "
+                  "lang::split(in, \" \") (C17, string unit) yields the words in order; replace_all(word, TAB, blank) keeps length and order (C17)"]
     return u
